@@ -1,7 +1,8 @@
 (* C13 — the refinement theorems in their final form: invariant [WF] (executable, Model.v)
    and abstraction [abs : tbl -> list row]. *)
 From Coq Require Import List ZArith Bool Lia.
-From TskVerif Require Import Base.Common C13.Model C13.Lemmas C13.Rep C13.Bridge C13.OpsProofs.
+From TskVerif Require Import Base.Common C13.Model C13.Lemmas C13.Rep C13.Bridge C13.OpsProofs
+  C13.ColsProofs C13.UpdateProofs.
 Import ListNotations.
 Open Scope Z_scope.
 
@@ -28,9 +29,9 @@ Proof.
 Qed.
 
 Example add_row_ex :
-  exists t', add_row d_individuals ex_tbl ([5], [[]; [2; 0]; [1; 2; 3]]) = Ok t'
-             /\ abs t' = ex_rows ++ [([5], [[]; [2; 0]; [1; 2; 3]])].
-Proof. eexists. split; vm_compute; reflexivity. Qed.
+  (do t' <- add_row d_individuals ex_tbl ([5], [[]; [2; 0]; [1; 2; 3]]); Ok (WFb d_individuals t', abs t'))
+  = Ok (true, ex_rows ++ [([5], [[]; [2; 0]; [1; 2; 3]])]).
+Proof. vm_compute. reflexivity. Qed.
 
 (* ---------- (c) truncate, clear ---------- *)
 Theorem truncate_refines d t m t' :
@@ -52,8 +53,8 @@ Theorem clear_refines d t t' : WF d t -> clear t = Ok t' -> WF d t' /\ abs t' = 
 Proof. intros W H. apply (truncate_refines _ _ _ _ W H). Qed.
 
 Example truncate_ex :
-  exists t', truncate ex_tbl 2 = Ok t' /\ abs t' = firstn 2 ex_rows /\ WF d_individuals t'.
-Proof. eexists. repeat split; vm_compute; reflexivity. Qed.
+  (do t' <- truncate ex_tbl 2; Ok (WFb d_individuals t', abs t')) = Ok (true, firstn 2 ex_rows).
+Proof. vm_compute. reflexivity. Qed.
 
 (* ---------- get_row ---------- *)
 Theorem get_row_refines d t i :
@@ -105,11 +106,79 @@ Proof.
 Qed.
 
 Example extend_ex :
-  exists t', extend d_individuals ex_tbl ex_tbl [2; 0; 0] = (t', Ok tt)
-             /\ abs t' = ex_rows ++ rows_at ex_rows [2; 0; 0].
-Proof. eexists. split; vm_compute; reflexivity. Qed.
+  (let '(t', st) := extend d_individuals ex_tbl ex_tbl [2; 0; 0] in (st, WFb d_individuals t', abs t'))
+  = (Ok tt, true, ex_rows ++ rows_at ex_rows [2; 0; 0]).
+Proof. vm_compute. reflexivity. Qed.
 
 Example extend_bad_ex :
-  exists t' c, extend d_individuals ex_tbl ex_tbl [1; 3; 0] = (t', Err c)
-               /\ abs t' = ex_rows ++ rows_at ex_rows [1].
-Proof. do 2 eexists. split; vm_compute; reflexivity. Qed.
+  (let '(t', st) := extend d_individuals ex_tbl ex_tbl [1; 3; 0] in (st, WFb d_individuals t', abs t'))
+  = (Err (-207), true, ex_rows ++ rows_at ex_rows [1]).
+Proof. vm_compute. reflexivity. Qed.
+
+(* ---------- (d) update_row ---------- *)
+Theorem update_row_refines d t i r t' :
+  WF d t -> order_ok d -> row_ok d r = true -> update_row d t i r = (t', Ok tt) ->
+  0 <= i < nrows t /\ WF d t' /\ abs t' = replace_nth (Z.to_nat i) r (abs t).
+Proof.
+  intros W O Hr H. destruct (update_row_rep _ _ _ _ _ _ (WF_TRep _ _ W) O Hr H) as [Hi R].
+  split; [exact Hi|]. split; [eapply TRep_WF; eassumption | apply (TRep_abs _ _ _ R)].
+Qed.
+
+(* both code paths are exercised: same ragged lengths (in place) / different (rewrite) *)
+Example update_row_in_place_ex :
+  (let '(t', st) := update_row d_individuals ex_tbl 1 ([9], [[]; [2]; []]) in (st, WFb d_individuals t', abs t'))
+  = (Ok tt, true, replace_nth 1 ([9], [[]; [2]; []]) ex_rows).
+Proof. vm_compute. reflexivity. Qed.
+
+Example update_row_rewrite_ex :
+  (let '(t', st) := update_row d_individuals ex_tbl 0 ([9], [[1; 2; 3]; []; [4]]) in (st, WFb d_individuals t', abs t'))
+  = (Ok tt, true, replace_nth 0 ([9], [[1; 2; 3]; []; [4]]) ex_rows).
+Proof. vm_compute. reflexivity. Qed.
+
+(* ---------- (g) set_columns / append_columns ---------- *)
+(* a successful call means: the dimension checks of the binding passed (parse_cols), every
+   supplied offset array passed check_offsets, and the table now stands for the old rows
+   followed by (append) / exactly (set) the rows the columns encode *)
+Theorem append_columns_refines d t cs t' :
+  WF d t -> order_ok d -> append_columns d t cs = (t', Ok tt) ->
+  exists m, parse_cols d cs = Ok m /\ WF d t' /\ abs t' = abs t ++ rows_of_cols (Z.to_nat m) cs.
+Proof.
+  intros W O H. destruct (append_columns_rep _ _ _ _ _ (WF_TRep _ _ W) O H) as (m & P & R).
+  exists m. split; [exact P|]. split; [eapply TRep_WF; eassumption | apply (TRep_abs _ _ _ R)].
+Qed.
+
+Theorem set_columns_refines d t cs t' :
+  WF d t -> order_ok d -> set_columns d t cs = (t', Ok tt) ->
+  exists m, parse_cols d cs = Ok m /\ WF d t' /\ abs t' = rows_of_cols (Z.to_nat m) cs.
+Proof.
+  intros W O H. destruct (set_columns_rep _ _ _ _ _ (WF_TRep _ _ W) O H) as (m & P & R).
+  exists m. split; [exact P|]. split; [eapply TRep_WF; eassumption | apply (TRep_abs _ _ _ R)].
+Qed.
+
+Definition ex_cols : cols :=
+  ([[4; 5]], [Some ([1; 2; 3], [0; 1; 3]); None; Some ([7], [0; 0; 1])]).
+
+Example set_columns_ex :
+  (let '(t', st) := set_columns d_individuals ex_tbl ex_cols in (st, WFb d_individuals t', abs t'))
+  = (Ok tt, true, [([4], [[1]; []; []]); ([5], [[2; 3]; []; [7]])]).
+Proof. vm_compute. reflexivity. Qed.
+
+Example append_columns_ex :
+  (let '(t', st) := append_columns d_individuals ex_tbl ex_cols in (st, WFb d_individuals t', abs t'))
+  = (Ok tt, true, ex_rows ++ [([4], [[1]; []; []]); ([5], [[2; 3]; []; [7]])]).
+Proof. vm_compute. reflexivity. Qed.
+
+(* decreasing offsets and offsets not starting at 0 are refused *)
+Example set_columns_bad_offsets_ex :
+  snd (set_columns d_individuals ex_tbl ([[4; 5]], [Some ([1; 2; 3], [0; 3; 3]); None; Some ([7], [0; 2; 1])]))
+  = Err TSK_ERR_BAD_OFFSET /\
+  snd (set_columns d_individuals ex_tbl ([[4; 5]], [Some ([1; 2; 3], [1; 2; 3]); None; None]))
+  = Err TSK_ERR_BAD_OFFSET.
+Proof. split; vm_compute; reflexivity. Qed.
+
+Theorem table_copy_refines d t cp :
+  WF d t -> order_ok d -> table_copy d t = (cp, Ok tt) -> WF d cp /\ abs cp = abs t.
+Proof.
+  intros W O H. pose proof (table_copy_rep _ _ _ _ (WF_TRep _ _ W) O H) as R.
+  split; [eapply TRep_WF; eassumption | apply (TRep_abs _ _ _ R)].
+Qed.
